@@ -6,12 +6,14 @@ WT=/tmp/mut_$ID; OUT=/tmp/mut_${ID}_out
 set -u
 cd $WT || exit 9
 run_tests() { (cd $WT && PYTHONPATH=$WT/src /venv/bin/python -m pytest -q -p no:cacheprovider tests --ignore=tests/test_cli.py --deselect tests/test_benchmarks.py --deselect tests/test_demos.py 2>&1 | grep -E "^(FAILED|ERROR)" | sed 's/ - .*//' | sort); }
+# the deliverable is patch.diff: start from a clean worktree and apply exactly that
+git -C $WT checkout -- . ; git -C $WT apply $OUT/patch.diff || { echo "patch does not apply"; exit 6; }
 echo "== tests with change"; run_tests > /tmp/tm_with.txt
 GOTRANX_SRC=$WT/src PYTHONPATH=$WT/src timeout 600 /venv/bin/python $OUT/demo.py > /tmp/tm_demo_with.txt 2>&1; D1=$?
-git -C $WT stash -q
+git -C $WT diff > /tmp/tm_patch_$ID.diff; git -C $WT apply -R /tmp/tm_patch_$ID.diff
 echo "== tests without change"; run_tests > /tmp/tm_without.txt
 GOTRANX_SRC=$WT/src PYTHONPATH=$WT/src timeout 600 /venv/bin/python $OUT/demo.py > /tmp/tm_demo_without.txt 2>&1; D0=$?
-git -C $WT stash pop -q
+git -C $WT apply /tmp/tm_patch_$ID.diff
 if diff -q /tmp/tm_with.txt /tmp/tm_without.txt >/dev/null; then TESTS=same; else TESTS=DIFFERENT; diff /tmp/tm_with.txt /tmp/tm_without.txt | head; fi
 echo "demo exit with change: $D1 ; without: $D0 ; test failure sets: $TESTS ($(wc -l < /tmp/tm_with.txt) failing both)"
 [ "$D1" = "1" ] && [ "$D0" = "0" ] && [ "$TESTS" = "same" ] || { echo "MUTANT NOT CONFIRMED"; tail -5 /tmp/tm_demo_with.txt; exit 3; }
@@ -31,7 +33,7 @@ cp $OUT/patch.diff $OUT/demo.py /verif/seeded/${ID}_$NAME/
 import json,sys
 i,n,res=sys.argv[1:4]
 m=json.load(open(f'/tmp/mut_{i}_out/meta.json'))
-m['confirmed']={'demo_exit_with_change':1,'demo_exit_without_change':0,'existing_tests':'same failing set with and without the change (baseline always_fail tests only)','how':'tools/trymutant.sh: ran the demo and the test suite in the scratch worktree with the change and with it stashed; then git -C /repo apply patch.diff, ran the listed checks, git -C /repo checkout -- .'}
+m['confirmed']={'demo_exit_with_change':1,'demo_exit_without_change':0,'existing_tests':'same failing set with and without the change (baseline always_fail tests only)','how':'tools/trymutant.sh: ran the demo and the test suite in the scratch worktree with exactly patch.diff applied to a clean checkout and with it reverse-applied; then git -C /repo apply patch.diff, ran the listed checks, git -C /repo checkout -- .'}
 m['checks_run']=res.split()
 json.dump(m,open(f'/verif/seeded/{i}_{n}/meta.json','w'),indent=1)
 PY
